@@ -344,6 +344,7 @@ func (p c01) RunBatch(c *fw.Ctx) {
 			c.Count("operator_table_pairs", 1)
 		}
 	}
+	p.containerTable(c)
 	n := c.Pick(5000, 60000)
 	for i := 0; i < n; i++ {
 		g := gt.NewGen(c.Rng)
